@@ -120,6 +120,27 @@ Proof.
   - unfold opts. cbn [set_mode with_tr tr fresh training disc hard gum nos sn_temp]. now rewrite Hd, Hh, Hg, Hn, Ht.
 Qed.
 
+(* the three restart protocols are the same function *)
+Lemma load_fresh_like : forall c ops f, meth f = c_meth c -> pe f = pe (fresh c) ->
+  load (save (run (fresh c) ops)) f = Some {| meth := c_meth c; pe := pe (run (fresh c) ops); tr := tr f |}.
+Proof.
+  intros c ops f Hm Hp. destruct (keys_run ops (fresh c)) as [_ Hk]. cbn [meth fresh] in Hk.
+  destruct (load_same_keys (save (run (fresh c) ops)) f) as (_ & _ & H).
+  - rewrite Hm, Hp. exact Hk.
+  - rewrite H, Hm. reflexivity.
+Qed.
+
+Theorem resume_protocols_agree : forall c ops n,
+  let s := run (fresh c) ops in
+  resume_nomode n c s = resume n c s /\ resume_mode_first n c s = resume n c s.
+Proof.
+  intros c ops n s. unfold resume, resume_nomode, resume_mode_first. subst s.
+  rewrite (load_fresh_like c ops (fresh c)) by reflexivity.
+  rewrite (load_fresh_like c ops (fresh (with_training (training (tr (run (fresh c) ops))) c))) by reflexivity.
+  rewrite (load_fresh_like c ops (set_mode (training (tr (run (fresh c) ops))) (fresh c))) by reflexivity.
+  split; reflexivity.
+Qed.
+
 (* histories that leave the transient options at their constructor values (optimizer steps, forward passes, mode
    changes, MPS temperature changes that pass the sampler flags again, options set to the value they already have) *)
 Definition skind_eqb (a b : skind) : bool := match a, b with Sm, Sm | Gs, Gs | NoSamp, NoSamp => true | _, _ => false end.
